@@ -279,6 +279,7 @@ macro_rules! kbucket_add_harness {
     ($name:ident, $n:expr) => {
         #[kani::proof]
         #[kani::stub(alloc::fmt::format, stub_format_c02)]
+        #[kani::stub(std::backtrace::Backtrace::capture, stub_backtrace_c02)]
         #[kani::unwind(6)]
         fn $name() {
             kbucket_add_check::<$n>();
@@ -305,6 +306,11 @@ kbucket_add_harness!(c02_kbucket_add_contract_3, 3);
 
 fn stub_format_c02(_args: std::fmt::Arguments<'_>) -> String {
     String::new()
+}
+/// anyhow captures a backtrace for every error value (environment look-ups, unwinder FFI):
+/// irrelevant to every obligation, replaced by the disabled backtrace.
+fn stub_backtrace_c02() -> std::backtrace::Backtrace {
+    std::backtrace::Backtrace::disabled()
 }
 
 fn kbucket_remove_check<const N: usize>() {
